@@ -31,11 +31,20 @@ func CheckConstructor(
 
 	for file := range filesToCheck {
 		currentFunction := ""
+		currentFunctionEnd := token.NoPos
 
 		ast.Inspect(file, func(n ast.Node) bool {
+			// Once the walk has left the body of the last function, we are back at
+			// package level: no constructor exemption applies there.
+			if n != nil && currentFunctionEnd != token.NoPos && n.Pos() >= currentFunctionEnd {
+				currentFunction = ""
+				currentFunctionEnd = token.NoPos
+			}
+
 			switch node := n.(type) {
 			case *ast.FuncDecl:
 				currentFunction = node.Name.Name
+				currentFunctionEnd = node.End()
 				return true
 
 			case *ast.CompositeLit:
